@@ -37,7 +37,7 @@ pub fn is_glue_text(t: &str) -> bool {
     t == "-" || t.chars().all(char::is_whitespace)
 }
 
-pub const N_CLASSES: usize = 16;
+pub const N_CLASSES: usize = 18;
 const BASE_WEIGHTS: [u32; N_CLASSES] = [
     4,  // 0 zero
     14, // 1 units
@@ -55,6 +55,8 @@ const BASE_WEIGHTS: [u32; N_CLASSES] = [
     6,  // 13 punct
     0,  // 14 glue (handled separately)
     8,  // 15 structured number phrase
+    9,  // 16 any word of the language's harvested number vocabulary (rare words, inflections, variants)
+    3,  // 17 any word of the language's harvested linking-word list
 ];
 
 #[derive(Clone, Debug)]
@@ -62,6 +64,7 @@ pub struct GenCfg {
     pub w: [u32; N_CLASSES],
     pub glue_pct: u32,
     pub upper_pct: u32,
+    pub display_pct: u32,
 }
 
 impl GenCfg {
@@ -77,6 +80,7 @@ impl GenCfg {
             w,
             glue_pct: *rng.pick(&[0u32, 0, 0, 30, 100]),
             upper_pct: *rng.pick(&[0u32, 0, 0, 10, 50]),
+            display_pct: *rng.pick(&[0u32, 0, 0, 0, 15]),
         }
     }
 }
@@ -227,6 +231,10 @@ fn case_variant(rng: &mut Rng, w: &str, upper_pct: u32) -> String {
     }
 }
 
+fn lang_index(p: &Pool) -> usize {
+    crate::pools::LANG_CODES.iter().position(|c| *c == p.code).unwrap_or(0)
+}
+
 /// Word-level stream (words and punctuation, optional glue tokens in between).
 pub fn gen_stream(rng: &mut Rng, p: &Pool, cfg: &GenCfg, target_len: usize) -> Vec<TokSpec> {
     let mut words: Vec<&'static str> = Vec::with_capacity(target_len + 8);
@@ -256,6 +264,14 @@ pub fn gen_stream(rng: &mut Rng, p: &Pool, cfg: &GenCfg, target_len: usize) -> V
             }
             13 => words.push(rng.word(&PUNCT)),
             15 => gen_number_phrase(rng, p, &mut words),
+            16 => {
+                let v = crate::vocab::vocab(lang_index(p));
+                words.push(if v.is_empty() { rng.word(p.units) } else { rng.word(v) })
+            }
+            17 => {
+                let v = crate::vocab::linking(lang_index(p));
+                words.push(if v.is_empty() { rng.word(p.linking) } else { rng.word(v) })
+            }
             _ => words.push(rng.word(p.content)),
         }
     }
@@ -274,7 +290,14 @@ pub fn gen_stream(rng: &mut Rng, p: &Pool, cfg: &GenCfg, target_len: usize) -> V
             w
         };
         let text = case_variant(rng, w, cfg.upper_pct);
-        out.push(TokSpec { lower: text.to_lowercase(), text, separated: false, nan: false });
+        let lower = text.to_lowercase();
+        // display form vs normalised form (ASR tokens): text() may carry more than case
+        let text = if cfg.display_pct > 0 && rng.chance(cfg.display_pct, 100) {
+            format!("{}{}", text, rng.word(&[",", ".", "!", "…", " ", "’s", ")"]))
+        } else {
+            text
+        };
+        out.push(TokSpec { lower, text, separated: false, nan: false });
     }
     out
 }
